@@ -3,6 +3,9 @@ use super::data::{CachedPayoff, RegretInfoset, RegretParams, SampledChance, Solv
 use super::multinomial::Multinomial;
 use crate::{Chance, ChanceInfoset, Node, Player, PlayerInfoset, PlayerNum};
 use by_address::ByAddress;
+#[cfg(erikbrinkman_cfr_verif)]
+use crate::verif::thread_rng;
+#[cfg(not(erikbrinkman_cfr_verif))]
 use rand::thread_rng;
 use rand_distr::Distribution;
 use rayon::iter::{
@@ -20,6 +23,8 @@ use std::sync::Mutex;
 struct CachedInfoset {
     reg: RegretInfoset,
     cached: usize,
+    #[cfg(erikbrinkman_cfr_verif)]
+    verif: crate::verif::Site,
 }
 
 impl CachedInfoset {
@@ -28,13 +33,19 @@ impl CachedInfoset {
         CachedInfoset {
             reg: RegretInfoset::new(num_actions),
             cached: 0,
+            #[cfg(erikbrinkman_cfr_verif)]
+            verif: crate::verif::Site::new(crate::verif::Kind::Player, None),
         }
     }
 
     /// Sample an action from the current strategy, caches between resets
     fn sample(&mut self) -> usize {
         if self.cached == 0 {
+            #[cfg(erikbrinkman_cfr_verif)]
+            self.verif.before_draw(Some(&self.reg.strat));
             let res = Multinomial::new(&self.reg.strat).sample(&mut thread_rng());
+            #[cfg(erikbrinkman_cfr_verif)]
+            self.verif.after_draw(Some(&self.reg.strat), res);
             self.cached = res + 1;
             res
         } else {
@@ -155,6 +166,8 @@ impl ActiveInfo for CachedInfoset {
     }
 
     fn advance<const FIRST: bool>(&mut self, it: u64, params: &RegretParams) -> f64 {
+        #[cfg(erikbrinkman_cfr_verif)]
+        self.verif.next_pass();
         self.cached = 0;
         params.regret_match(&mut *self.reg.cum_regret, &mut self.reg.strat);
         params.discount_cum_regret(it, &mut *self.reg.cum_regret);
